@@ -358,3 +358,14 @@ class Lifter:
             raise ValueError('snapshot tag is not the MAC of its name')
         nt = ('Hash', obj)
         return ('LSnap', nt, self.mac_t(nt)), obj, snap
+
+
+def unctor(t):
+    """core.parse_coq_term leaves nullary constructors in argument position as ('ctor', name)"""
+    if isinstance(t, tuple):
+        if len(t) == 2 and t[0] == 'ctor':
+            return t[1]
+        return tuple(unctor(a) for a in t)
+    if isinstance(t, list):
+        return [unctor(a) for a in t]
+    return t
